@@ -21,7 +21,7 @@ EXHAUSTIVE = True
 RULE = ("(a) all 2^8/2^16 values of the 8/16-bit types, +-2^k+d boundary sets of the wider types, REAL32/64 grid (NaN by bit "
         "pattern), BOOLEAN, VISIBLE/UNICODE/OCTET strings and DOMAIN of every length 0..N; access by index, name, "
         "'Record.Member', array member; read back through the remote node, through local.sdo and from data_store; delivery "
-        "inline / deferred / with noise frames. (b) schedules of client threads (write-then-read of an expedited and a "
+        "inline / deferred / with noise frames / through an interface that re-uses one receive buffer. (b) schedules of client threads (write-then-read of an expedited and a "
         "9-byte segmented object each) x dispatcher x noise with <= P preemptions, partitioned by the position of the first "
         "deviation. states = schedules + round trips; non-trivial = boundary / non-finite / empty / multi-segment values and "
         "schedules with a preemption")
@@ -88,11 +88,13 @@ def cases(tier, seed):
             out.append({"part": "ints", "type": t, "lo": None, "hi": None, "mode": "inline"})
         out.append({"part": "ints", "type": t, "lo": None, "hi": None, "mode": "deferred", "boundary_only": True})
         out.append({"part": "ints", "type": t, "lo": None, "hi": None, "mode": "noise", "boundary_only": True})
+        out.append({"part": "ints", "type": t, "lo": None, "hi": None, "mode": "reuse-rx", "boundary_only": True})
     out.append({"part": "other", "mode": "inline"})
     out.append({"part": "other", "mode": "deferred"})
+    out.append({"part": "other", "mode": "reuse-rx"})
     N = 40 if tier == "quick" else 200
     for a in range(0, N + 1, 10):
-        for mode in ("inline", "deferred", "noise"):
+        for mode in ("inline", "deferred", "noise", "reuse-rx"):
             out.append({"part": "strings", "lens": [a, min(a + 9, N)], "mode": mode, "seed": seed})
     out.append({"part": "access"})
     # round trips AFTER something failed on the same client / server objects (refused write, vetoing callback, transfer
@@ -143,6 +145,8 @@ class Pair:
         import canopen
         simenv.new_world()
         self.bus = simenv.SimBus("deferred" if mode == "deferred" else "inline")
+        # "reuse-rx": an interface that hands every received frame over in one re-used buffer, with unrelated traffic
+        self.bus.reuse_rx = mode == "reuse-rx"
         self.a, self.b = canopen.Network(), canopen.Network()
         self.bus.attach(self.a, "client")
         self.bus.attach(self.b, "server")
@@ -153,7 +157,7 @@ class Pair:
         self.k = 0
 
     def noise(self):
-        if self.mode == "noise":
+        if self.mode in ("noise", "reuse-rx"):
             self.k += 1
             self.bus.inject(0x7F0, bytes([self.k & 0xFF]))
             self.bus.inject(0x705, b"\x05")
